@@ -20,6 +20,13 @@
         — `fix:` commit of C08)                                 `trimAsWritten`, only used by the counterexample)
     5) delete what is not needed             -> `keep`       = needed ∪ frozen   (= `set(cell_map)` after the trim)
 
+  Where the model follows the PROPERTY (C08) and not the pinned code; both were defects of the pinned code, found by
+  the C08 correspondence and repaired in /repo (fix: 2f00813, 15e38fa), so code and model now coincide:
+    * a frozen formula cell without a value is evaluated before its formula is dropped (`evalFrozen`; the pinned code
+      froze it at `None` — `trimAsWritten`, `C08_asWritten_counterexample`);
+    * an input range stands for its member cells (`inputCells`): the pinned code only walked the dependants of the
+      range NODE, so a formula reading a member cell directly was frozen and ignored `set_value(range, values)`.
+
   The closures are computed by recursion along the topological order (`depOnF` downwards, `liveF` upwards) instead of
   the code's depth-first walks with a visited set: the SET a closure walk returns does not depend on the visiting order,
   and `set(cell_map)` after the trim is compared with `keep` by the correspondence on every generated case.
